@@ -14,6 +14,9 @@ func (g *genState) tree(depth int, focus string) sx.Tree {
 	id := g.nextID
 	g.nodes++
 	kind := int64(sx.Pick(r, 0, 0, 1, 2))
+	if focus == "C16" && r.Chance(40) {
+		kind = 1
+	}
 	workers := int64(sx.Pick(r, 1, 1, 2, 3))
 	buf := int64(sx.Pick(r, 1, 1, 2, 3))
 	disabled := depth > 0 && r.Chance(8)
@@ -21,6 +24,9 @@ func (g *genState) tree(depth int, focus string) sx.Tree {
 		disabled = true
 	}
 	disc := r.Chance(22)
+	if focus == "C02" || focus == "C16" {
+		disc = r.Chance(35)
+	}
 	kids := []sx.Tree{}
 	if depth < 3 && g.nodes < 9 {
 		nk := sx.Pick(r, 0, 1, 1, 2, 2, 3)
@@ -89,7 +95,7 @@ func comb(r *sx.Rng) (sx.Tree, []sx.Tree) {
 
 // Gen generates one case; the mix of lockstep / free-running and the scenario shapes depend on the focus.
 func Gen(r *sx.Rng, idx int, focus string) sx.Tree {
-	if (focus == "C04" && r.Chance(25)) || (focus != "C04" && r.Chance(3)) {
+	if (focus == "C04" && r.Chance(25)) || (focus == "C16" && r.Chance(15)) || (focus != "C04" && focus != "C16" && r.Chance(3)) {
 		root, ids := comb(r)
 		if r.Chance(40) { // stalled for the whole emission phase
 			return sx.T(sx.L(0), sx.L(2), sx.T(root), sx.T(sx.L(int64(r.Next()>>8)), sx.Ints(r.Range(150, 500), 1)), sx.T(ids...), sx.T())
@@ -138,7 +144,14 @@ func Gen(r *sx.Rng, idx int, focus string) sx.Tree {
 	// lockstep scenario
 	ints := []sx.Tree{}
 	rel := func() sx.Tree {
-		return sx.Ints(2, r.Range(0, 15), r.Range(0, 3), int64(sx.Pick(r, 0, 0, 0, 1, 2, 2, 3, 3, 4, 4)), r.Range(0, 7))
+		kinds := []int{0, 0, 0, 1, 2, 2, 3, 3, 4, 4}
+		switch focus {
+		case "C02": // many failures, so that handler buffers fill
+			kinds = []int{0, 1, 2, 2, 2, 2, 2, 3, 4}
+		case "C16", "C04": // many multi-result fanouts, so that several events of one delivery meet a full buffer
+			kinds = []int{0, 1, 2, 3, 3, 3, 3, 3, 4}
+		}
+		return sx.Ints(2, r.Range(0, 15), r.Range(0, 3), int64(kinds[r.Intn(len(kinds))]), r.Range(0, 7))
 	}
 	comp := func() sx.Tree {
 		return sx.Ints(3, r.Range(0, 15), r.Range(0, 3), int64(sx.Pick(r, 0, 0, 1, 2, 3)), r.Range(0, 7))
